@@ -57,7 +57,12 @@ def save_checkpoint(root_dir: str,
   """Saves checkpoint and cleans up old checkpoints."""
   base_path = os.path.join(root_dir, _CHECKPOINT_PREFIX)
   checkpoint_path = f'{base_path}{round_num:08d}'
-  serialization.save_state(state, checkpoint_path)
+  # Write under a temporary name (not matched by _get_checkpoint_paths) and
+  # rename, so that an interrupted write never leaves a truncated file under a
+  # name that load_latest_checkpoint would pick up.
+  tmp_checkpoint_path = checkpoint_path + '.tmp'
+  serialization.save_state(state, tmp_checkpoint_path)
+  tf.io.gfile.rename(tmp_checkpoint_path, checkpoint_path, overwrite=True)
   remove_checkpoint_paths = _get_checkpoint_paths(base_path)[:-keep]
   for path in remove_checkpoint_paths:
     tf.io.gfile.remove(path)
